@@ -107,7 +107,7 @@ PROBES.append((re.compile(r"^ad::(AuthenticatorData::from_slice|AttestedCredenti
 PROBES.append((re.compile(r"^clt::"), "client-ceremonies", ["sweep"]))
 
 
-CEREMONY = {"C09": ["c09"], "C04": ["c04"], "C05": ["c05"], "C07": ["c07"], "C08": ["c08"], "C11": ["c11"], "C02": ["c07", "c11"], "C03": ["c05"]}
+CEREMONY = {"C17": ["c17"], "C09": ["c09"], "C04": ["c04"], "C05": ["c05"], "C07": ["c07"], "C08": ["c08"], "C11": ["c11"], "C02": ["c07", "c11"], "C03": ["c05"]}
 
 
 def probe(o, pid=None):
